@@ -302,6 +302,25 @@ impl<Word: BitArray, State: BitArray, const PRECISION: usize>
     }
 }
 
+#[cfg(feature = "verif_hooks")]
+impl<Word: BitArray, State: BitArray, const PRECISION: usize>
+    ChainCoderHeads<Word, State, PRECISION>
+{
+    /// Verification hook: assembles heads from raw values so that a single coding step can
+    /// be started from an arbitrary state (install with `Seek::seek`).
+    pub fn from_raw_parts(compressed: Word::NonZero, remainders: State) -> Self {
+        Self {
+            compressed,
+            remainders,
+        }
+    }
+
+    /// Verification hook: inverse of `from_raw_parts`.
+    pub fn into_raw_parts(self) -> (Word::NonZero, State) {
+        (self.compressed, self.remainders)
+    }
+}
+
 pub type DefaultChainCoder = ChainCoder<u32, u64, Vec<u32>, Vec<u32>, 24>;
 pub type SmallChainCoder = ChainCoder<u16, u32, Vec<u16>, Vec<u16>, 12>;
 
